@@ -22,11 +22,16 @@ TEMPLATES = [
     "[C:1](=[O:2])[N:3].[H:5][O:4][H:6]>>[C:1](=[O:2])[O:4][H:5].[N:3][H:6]",
     "[C:1]=[O:2].[N:3][H:4]>>[C:1]([O:2][H:4])[N:3]",
     "[C:1]=[C:2].[H:3][H:4]>>[C:1]([H:3])[C:2][H:4]",
+    # charged centres: the same element occurs in two charge states in the substrates below
+    "[C:1](=[O:2])[O-:3].[H+:4]>>[C:1](=[O:2])[O:3][H:4]",
+    "[N+:1][H:2].[H-:3]>>[N:1].[H:2][H:3]",
+    "[O-:1].[H+:2]>>[O:1][H:2]",
 ]
 SUBSTRATES = ["CC=O.NC", "CCC=O.NCC", "CC(=O)O.CO", "CCC(=O)O.OCC", "C=C.[H][H]", "CC=CC.[H][H]", "CCBr.[OH-]", "CN.CCl", "CCN.CCCl",
               "C=CC=C.C=C", "CC=O.CC=O", "N.[H+]", "CN.[H+]", "CC(N)=O.O", "NC(N)=O.O", "CC(=O)NC", "O=CC=O.NC", "OC(=O)CC(=O)O.CO", "CC(C)=O.NC",
               "NC(=O)NC", "CC(=O)N", "C=CC(C)=C.C=CC",
               # product-like molecules (for backward application)
+              "CC=O.CC=O.NC", "CC(=O)[O-].[H+]", "NCC(=O)[O-].[H+]", "[NH3+]CC(=O)[O-].[H+]", "C[NH3+].[H-]", "[O-]C(=O)CC(=O)O.[H+]",
               "CC=NC.O", "COC(C)=O.O", "CC", "CCC", "CCO.[Br-]", "C[NH2+]C.[Cl-]", "C1=CCCCC1", "CC(O)CC=O", "[NH4+]", "C[NH3+]", "CC(=O)O.N", "CC(O)NC", "NC(O)N"]
 
 
@@ -100,23 +105,61 @@ def reverse(rsmi):
 def check_pair(tw, template, substrate, fails, tags):
     nres = 0
     tmpl_change = {False: change_graph(template), True: change_graph(reverse(template))}
-    for invert, strategy, explicit_h in itertools.product((False, True), ("all", "comp", "bt"), (False, True)):
+    for invert, strategy, (explicit_h, implicit_temp) in itertools.product((False, True), ("all", "comp", "bt"), ((False, False), (True, False), (False, True))):
         sub = substrate if not invert else None
         if invert:
             continue_sub = substrate
-        cfg = {"invert": invert, "strategy": strategy, "explicit_h": explicit_h}
+        cfg = {"invert": invert, "strategy": strategy, "explicit_h": explicit_h, "implicit_temp": implicit_temp}
 
         def bad(msg, clause):
             fails.append({"function": "SynReactor", "violations": ["%s: %s" % (clause, msg)], "template": template, "substrate": substrate, "config": cfg,
                           "tags": dict(tags, clause=clause)})
         try:
-            reactor = SynReactor(substrate=substrate, template=template, invert=invert, explicit_h=explicit_h, strategy=strategy)
+            reactor = SynReactor(substrate=substrate, template=template, invert=invert, explicit_h=explicit_h, implicit_temp=implicit_temp, strategy=strategy)
             results = list(reactor.smarts_list)
         except Exception as ex:
             bad("raised %r" % (ex,), "raises")
             continue
         want_sub = chem.canon_nostereo(substrate)
         fsub = chem.formula(substrate)
+        # the glued ITS graphs themselves (before serialisation, which silently drops graphs it cannot write): hydrogens, charge and
+        # heavy atoms of the reactant side are the substrate's, and the product side conserves them
+        try:
+            its_graphs = list(reactor.its_list)
+        except Exception as ex:
+            its_graphs = []
+            bad("its_list raised %r" % (ex,), "raises")
+        if fsub is not None:
+            sub_counts, sub_q = fsub
+            for g in its_graphs:
+                nres += 1
+                tot = {0: {}, 1: {}}
+                q = {0: 0, 1: 0}
+                ok = True
+                for n, d in g.nodes(data=True):
+                    t = d.get("typesGH")
+                    if not t:
+                        ok = False
+                        break
+                    for side in (0, 1):
+                        el = t[side][0]
+                        if el == "*":
+                            ok = False
+                            break
+                        tot[side][el] = tot[side].get(el, 0) + 1
+                        tot[side]["H"] = tot[side].get("H", 0) + int(t[side][2] or 0)
+                        q[side] += int(t[side][3] or 0)
+                if not ok:
+                    continue          # wildcard / partial graphs are outside this check
+                for side in (0, 1):
+                    if tot[side].get("H") == 0:
+                        del tot[side]["H"]
+                if tot[0] != sub_counts or q[0] != sub_q:
+                    bad("ITS graph: reactant side has atoms %s charge %d, the substrate has %s charge %d" % (tot[0], q[0], sub_counts, sub_q), "its-substrate-side")
+                if tot[1] != tot[0] or q[1] != q[0]:
+                    bad("ITS graph does not conserve atoms / charge: %s (%d) -> %s (%d)" % (tot[0], q[0], tot[1], q[1]), "its-conservation")
+        if len(its_graphs) != len(results):
+            bad("%d glued ITS graph(s) but %d serialised reaction(s): some proposed reactions could not be written" % (len(its_graphs), len(results)), "its-serialisation")
         for rs in results:
             nres += 1
             if not rs or ">>" not in rs:
@@ -151,7 +194,9 @@ def run(tw, tier, seed, only=None):
     if tier == "quick":
         own = [(t, s) for t, s in pairs if chem.canon_nostereo(t.split(">>")[0]) == chem.canon_nostereo(s)]
         rest = [p for p in pairs if p not in own]
-        pairs = own + rng.sample(rest, 120)
+        charged = [(t, x) for t, x in rest if (t in TEMPLATES[-3:] and ("+" in x or "-" in x)) or x == "CC=O.CC=O.NC"]
+        rest = [q for q in rest if q not in charged]
+        pairs = own + charged + rng.sample(rest, 120)
     for t, s in pairs:
         for sub, direction in ((s, "fw"),):
             try:
@@ -167,8 +212,8 @@ def run(tw, tier, seed, only=None):
         sub_b = chem.canon_nostereo_plain(prod) if hasattr(chem, "canon_nostereo_plain") else None
     samples = [list(p) for p in pairs[:2]]
     return {"cases": cases, "nontrivial": nontriv, "failures": fails, "samples": samples, "exhaustive": False, "evaluations": cases,
-            "bound": "%d (template, substrate) pairs from 11 vendored templates (condensation, esterification, H2 addition with explicit H, SN2 with charges, "
-                     "Menshutkin, Diels-Alder, aldol, protonation, amide hydrolysis, wildcard-free) x 35 substrates (own and foreign, substrates with pre-existing bonds "
+            "bound": "%d (template, substrate) pairs from 14 vendored templates (condensation, esterification, H2 addition with explicit H, SN2 with charges, "
+                     "Menshutkin, Diels-Alder, aldol, protonation, amide hydrolysis, wildcard-free) x 41 substrates (own and foreign, substrates with pre-existing bonds "
                      "between matched atoms); forward and backward, strategies all/comp/bt, explicit-H on/off; the centre clause is skipped for aromatic systems"
                      % cases,
             "rule": "a pair is non-trivial when at least one reaction was proposed and checked"}
